@@ -710,6 +710,10 @@ STATEMENTS = {
 	'layout_chars_comment': 'END TO END: inserting blanks + a comment at a line end leaves Tokenizer.parse unchanged up to source maps',
 	'layout_chars_comment_line': 'END TO END: inserting a comment-only line (any indentation) before a line end leaves Tokenizer.parse unchanged up to source maps',
 	'width_end_to_end': 'END TO END: re-indenting every line from m*u to m*u\' characters (tabs vs any consistent space width) leaves Tokenizer.parse unchanged up to source maps',
+	'comment_boundary': 'a comment token starts with the first matching opener and extends exactly to the first newline at or after the opener\'s end (or the end of the source), never containing it; `#` directly before a newline is the one-character token',
+	'quote_closing_rule / escape_run_is_bsRun': 'declarative closing rule: the literal ends right after the FIRST occurrence of the closing sequence at or after the body start that is preceded, inside the body, by an even run of backslashes (IsCloser / bsRun); none => unterminated; the model\'s escape count equals the declarative run',
+	'first_token_spec / lex_meets_spec': 'maximal munch, declaratively: dispatch = first accepting domain of the analyse order; run tokens are the longest prefix inside their alphabet; symbols the longest combined symbol (3, then 2 characters) else one character; comments / literals by the two rules above; the whole raw token sequence of parse_impl is described token by token (lex ⊆ spec)',
+	'layout_closure': 'LayoutEq = equivalence generated by the layout steps (blanks / blank lines, trailing comment, comment-only line, inserted or removed, and re-indentation); layout-equivalent sources have the same Tokenizer.parse up to source maps',
 }
 
 
@@ -732,7 +736,7 @@ def run(ctx: Ctx) -> int:
 		statements=STATEMENTS,
 		partial={
 			'proved': 'concat / progress / totality / span for parse_impl; INDENT/DEDENT accounting of _rebuild (and its falsity for over-indented blocks); closed form of post_filter; the layout sentence at token level in full and at character level end to end for blanks, blank lines, trailing comments, comment-only lines and the indentation unit (each rewrite step at a token boundary; composition by transitivity)',
-			'not_proved': 'removal of blanks that are the only separation of two tokens is covered only in the direction "insert" (the equalities are symmetric, but the premise is stated on the source without the blanks); a comment directly after a token without a blank; layout changes inside brackets are covered (line breaks there are ordinary raw tokens) but not singled out; unterminated string literals are excluded by hypothesis; equality with CPython stays search-only',
+			'not_proved': 'spec ⊆ lex (uniqueness of the token sequence satisfying LexSpec) is not proved: TokSpec does not fix the end of an unterminated literal; newlines inserted INSIDE brackets are not a LayoutStep (they change norm and are only dropped by _rebuild); removal of blanks that are the only separation of two tokens is covered only in the direction "insert" (the equalities are symmetric, but the premise is stated on the source without the blanks); a comment directly after a token without a blank; layout changes inside brackets are covered (line breaks there are ordinary raw tokens) but not singled out; unterminated string literals are excluded by hypothesis; equality with CPython stays search-only',
 			'correspondence_only': 'the model is the code (three streams); post filter regex semantics (re.split) for the one pattern TokenDefinition ships',
 			'search_only': 'equality with CPython tokenize on the supported subset; the character-level layout rewrites (comments, blank lines, spaces around operators)',
 		},
